@@ -163,10 +163,11 @@ def check_ldf(acc, vector, start, w, h, case):
     from rig.links import Links
     hops = sum(abs(c) for c in vector)
     dx, dy = proj(vector)
-    if w is None:
-        end = (start[0] + dx, start[1] + dy)
-    else:
-        end = ((start[0] + dx) % w, (start[1] + dy) % h)
+    def wrap(p):
+        # each axis wraps on its own (width or height may be None)
+        return (p[0] if w is None else p[0] % w,
+                p[1] if h is None else p[1] % h)
+    end = wrap((start[0] + dx, start[1] + dy))
     seen_orders = set()
 
     def judge(path, choices):
@@ -183,9 +184,7 @@ def check_ldf(acc, vector, start, w, h, case):
         pos = tuple(start)
         for d, nxt in path:
             vx, vy = Links(d).to_vector()
-            exp = (pos[0] + vx, pos[1] + vy)
-            if w is not None:
-                exp = (exp[0] % w, exp[1] % h)
+            exp = wrap((pos[0] + vx, pos[1] + vy))
             if tuple(nxt) != exp or not isinstance(d, Links):
                 acc.violation(dict(kind="ldf_step"), c,
                               "longest_dimension_first%r from %r (w=%r,h=%r): "
@@ -365,6 +364,12 @@ def run_mesh(tier, acc):
                                 and base == (0, 0) and \
                                 abs(dx) <= 5 and abs(dy) <= 5:
                             check_ldf(acc, v, (2, 1), None, None, case)
+                            if abs(dx) <= 3 and abs(dy) <= 3:
+                                # wrap-around on one axis only
+                                for ww, hh in ((4, None), (None, 3),
+                                               (3, None), (None, 5)):
+                                    check_ldf(acc, v, (2, 1), ww, hh,
+                                              dict(case, one_axis=[ww, hh]))
     # minimise_xyz on every small triple
     for v in itertools.product(range(-4, 5), repeat=3):
         acc.evaluations += 1
@@ -435,6 +440,34 @@ def run_links(tier, acc):
                                 "on %dx%d = %r, link is %r"
                                 % (raw, x, y, bx, by, w, h, got, l),
                                 size=w * h)
+    # links_between on every torus 1..5 x 1..5 (non-square included): the
+    # set of links joining a to b is exactly the links whose vector leads
+    # from a to b modulo the size; one dead link is removed from it
+    from rig.place_and_route.route.utils import links_between
+    from rig.place_and_route import Machine
+    for w in range(1, 6):
+        for h in range(1, 6):
+            chips = [(x, y) for x in range(w) for y in range(h)]
+            for dead in (None, (0, 0, Links.north), (w - 1, h - 1,
+                                                     Links.south_west)):
+                m = Machine(w, h, dead_links=set([dead] if dead else []))
+                for a in chips:
+                    for b in chips:
+                        acc.evaluations += 1
+                        acc.nontrivial += 1
+                        want = set(l for l in Links
+                                   if ((a[0] + vecs[l][0]) % w,
+                                       (a[1] + vecs[l][1]) % h) == b and
+                                   (a[0], a[1], l) != dead)
+                        got = guarded(links_between, a, b, m)
+                        if got != want:
+                            acc.violation(
+                                dict(kind="links_between"),
+                                dict(case, w=w, h=h, a=list(a), b=list(b)),
+                                "links_between(%r, %r) on a %dx%d torus "
+                                "(dead link %r) = %r, the links leading "
+                                "from a to b are %r"
+                                % (a, b, w, h, dead, got, want), size=w * h)
     acc.sample(dict(kind="links", table={l.name: vecs[l] for l in Links}))
 
 
